@@ -406,8 +406,8 @@ static void fork_edit(gctx_t *g, int kind, int off, int val)
  * the byte level, Finished is recomputed over the edited transcript and the flight is re-sealed: the edits reach the parsers
  * of EncryptedExtensions / CertificateRequest / Certificate / CertificateVerify / Finished behind the record protection,
  * which ciphertext edits (rejected by the AEAD) never do. */
-enum { T_BYTE = 0, T_W2, T_W3, T_TRUNC_FIX, T_TRUNC_NOFIX, T_EXTEND, T_NONE, T_EMPTYTYPE, T_KEYUPDATE, T_RETYPE, T_NK };
-static const char *tname[] = { "msg-byte", "msg-window16", "msg-window24", "msg-truncate-header-fixed", "msg-truncate-header-kept", "msg-extend", "msg-none", "empty-message-of-type", "key-update-with-body", "msg-retyped" };
+enum { T_BYTE = 0, T_W2, T_W3, T_TRUNC_FIX, T_TRUNC_NOFIX, T_EXTEND, T_NONE, T_EMPTYTYPE, T_KEYUPDATE, T_RETYPE, T_VEC, T_NK };
+static const char *tname[] = { "msg-byte", "msg-window16", "msg-window24", "msg-truncate-header-fixed", "msg-truncate-header-kept", "msg-extend", "msg-none", "empty-message-of-type", "key-update-with-body", "msg-retyped", "msg-vector-resize" };
 typedef struct { a_ctx_t *g; int mi, kind, off, val; } tcase_t;
 
 static void t_run_case(void *ctx, mx_result_t *r)
@@ -462,6 +462,28 @@ static void t_run_case(void *ctx, mx_result_t *r)
     case T_RETYPE:
         em[0] = (unsigned char) c->val;
         break;
+    case T_VEC:
+    {
+        /* off = vector index inside the message, val = resize variant: the message travels as a pseudo record through the
+           shared vector grammar (TLS 1.3 layouts) */
+        static unsigned char tmp[24200];
+        int tl = 5 + el, ok;
+        tmp[0] = 22; tmp[1] = 3; tmp[2] = 3; tmp[3] = (unsigned char) (el >> 8); tmp[4] = (unsigned char) el;
+        memcpy(tmp + 5, em, (size_t) el);
+        vec_tls13 = 1;
+        ok = vec_resize(tmp, &tl, (int) sizeof(tmp), 0, 0, c->off, c->val);
+        vec_tls13 = 0;
+        if (ok && tl - 5 <= (int) sizeof(em))
+        {
+            el = tl - 5;
+            memcpy(em, tmp + 5, (size_t) el);
+        }
+        else
+        {
+            r->nontrivial = 0;
+        }
+        break;
+    }
     case T_EXTEND:
         memset(em + el, 0x41, (size_t) c->off);
         el += c->off;
@@ -738,6 +760,23 @@ static void t_enumerate(a_ctx_t *gp, int mi)
     t_fork(&g, mi, T_EXTEND, 1, 0);
     t_fork(&g, mi, T_EXTEND, 2, 0);
     t_fork(&g, mi, T_EXTEND, 16, 0);
+    {
+        /* every length-prefixed vector of the protected message resized with all enclosing lengths fixed up */
+        static unsigned char tmp[24200];
+        int mis[96], ks[96], nvec, fi, var, tl = 5 + L;
+        if (L > 0 && L <= 24000)
+        {
+            tmp[0] = 22; tmp[1] = 3; tmp[2] = 3; tmp[3] = (unsigned char) (L >> 8); tmp[4] = (unsigned char) L;
+            memcpy(tmp + 5, g.m[mi].p, (size_t) L);
+            vec_tls13 = 1;
+            nvec = vec_count(tmp, tl, 0, mis, ks, 96);
+            vec_tls13 = 0;
+            for (fi = 0; fi < nvec && !mx_deadline_hit(); fi++)
+            {
+                for (var = 0; var < VR_N; var++) t_fork(&g, mi, T_VEC, ks[fi], var);
+            }
+        }
+    }
 #undef g
 }
 
